@@ -24,7 +24,7 @@ import (
 func init() {
 	core.Register(&core.Prop{
 		ID: "C05",
-		Rule: "E1 bounded-exhaustive: schemas = struct literals with <=m members from a 30-member alphabet x 4 ways of reaching them (open literal, close(), #S, #T.f), single and in conjunctions of 2-3; x every data struct over labels a b c (+ hidden/definition field variants); " +
+		Rule: "E1 bounded-exhaustive: schemas = struct literals with <=m members from a 30-member alphabet x 6 ways of reaching them (open literal, close(), #S, #T.f, #T[\"f\"], #L[0]), single and in conjunctions of 2-3; x every data struct over labels a b c (+ hidden/definition field variants); " +
 			"oracle = independent membership checker. Non-trivial = schema conjunctions that accept some and reject some data structs.",
 		Assumptions: []string{"model in /verif/src/model/structs.go", "success = Validate(cue.Final()) == nil (missing required fields are errors, non-concrete regular fields are not)"},
 		Run:         run, Replay: replay,
@@ -39,8 +39,8 @@ type member struct {
 	apply func(s *model.Schema)
 }
 
-func intV() model.SVal { return model.SVal{Kind: "int"} }
-func oneV() model.SVal { return model.SVal{Kind: "1"} }
+func intV() model.SVal                   { return model.SVal{Kind: "int"} }
+func oneV() model.SVal                   { return model.SVal{Kind: "1"} }
 func structV(s *model.Schema) model.SVal { return model.SVal{Kind: "struct", S: s} }
 
 func fld(label, marker string, v model.SVal) member {
@@ -93,7 +93,7 @@ func members(full bool) []member {
 }
 
 // reach describes how a literal is reached.
-var reaches = []string{"open", "close", "def", "deffield"}
+var reaches = []string{"open", "close", "def", "deffield", "defindex", "deflist"}
 
 type schemaSpec struct {
 	Members []int  `json:"members"`
@@ -123,6 +123,16 @@ func build(spec schemaSpec, ms []member, idx int) (s *model.Schema, decl, ref st
 		s.Def = true
 		s.DefName = fmt.Sprintf("#S%d", idx)
 		return s, fmt.Sprintf("%s: %s\n", s.DefName, s.Lit()), s.DefName
+	case "defindex": // a field of a definition reached through an index expression
+		s.Def = true
+		name := fmt.Sprintf("#T%d", idx)
+		s.DefName = name + `["f"]`
+		return s, fmt.Sprintf("%s: {f: %s}\n", name, s.Lit()), s.DefName
+	case "deflist": // an element of a list inside a definition
+		s.Def = true
+		name := fmt.Sprintf("#L%d", idx)
+		s.DefName = name + "[0]"
+		return s, fmt.Sprintf("%s: [%s]\n", name, s.Lit()), s.DefName
 	default: // deffield
 		s.Def = true
 		name := fmt.Sprintf("#T%d", idx)
@@ -206,7 +216,7 @@ func run(r *core.Run) {
 		r.Guard(c, func() { check(r, c) })
 		return true
 	}
-	r.Section("single schema, <=3 members x 4 reaches")
+	r.Section("single schema, <=3 members x 6 reaches")
 	subsets(len(ms), 3, func(ix []int) bool {
 		for _, rc := range reaches {
 			if !do([]schemaSpec{{append([]int{}, ix...), rc}}, false) {
@@ -249,7 +259,7 @@ func run(r *core.Run) {
 	}
 	if r.Thorough() {
 		msf := members(true)
-		r.Section("full alphabet: single schema, <=3 members x 4 reaches")
+		r.Section("full alphabet: single schema, <=3 members x 6 reaches")
 		subsets(len(msf), 3, func(ix []int) bool {
 			for _, rc := range reaches {
 				if !do([]schemaSpec{{append([]int{}, ix...), rc}}, true) {
